@@ -106,6 +106,9 @@ structure Err where
   line : Nat
   col : Int
   kind : ErrKind
+  feat : List Char := []     -- the pinned deviations the run went through before it failed
+  plus : Bool := false       -- the `plus` flag the Parser is left with
+  lastStrKey : Bytes := []   -- and the key it would join to
   deriving Repr, Inhabited
 
 structure Cfg where
@@ -266,6 +269,13 @@ def deliverP (s : St) : Except ErrKind St :=
   | none => fault "index out of range [0]"
   | some it => .ok { s with docs := it.toJV :: s.docs, stack := [], mode := if cfg.onlyOne then .space else .value }
 
+/-- A number or token that is complete at depth 0 but ended by `/`, `[` or `{` is pushed and NOT
+delivered (these cases end with `continue` or leave a mode without end marker): it stays on the stack
+below whatever follows, and only `p.stack[0]` is ever returned (`1[]` gives 1, `1//c` gives nil).
+The model follows the code; the run is marked. -/
+def St.undelivered (s : St) : St :=
+  if s.starts.isEmpty && !s.stack.isEmpty then s.addFeat 's' else s
+
 def startP (s : St) (idx : Nat) (m : Item) : St :=
   { s with starts := some idx :: s.starts, stack := m :: s.stack, mode := .value }
 
@@ -285,7 +295,8 @@ def stepActP (s : St) (b : UInt8) : Except ErrKind (St × Bool × Bool) :=
   | .cskipChar => .ok ({ s with mode := .ccomment }, true, false)
   | .openObject => do
     let s1 ← s.flushP T
-    pure ({ s1 with starts := none :: s1.starts, stack := .obj [] :: s1.stack }, true, false)
+    let s2 := s1.undelivered
+    pure ({ s2 with starts := none :: s2.starts, stack := .obj [] :: s2.stack }, true, false)
   | .closeObject =>
     match s.starts with
     | none :: rest => do
@@ -293,7 +304,10 @@ def stepActP (s : St) (b : UInt8) : Except ErrKind (St × Bool × Bool) :=
       match s1.stack with
       | [] => fault "index out of range [-1]"
       | top :: below => do
-        let s2 ← ({ s1 with starts := rest, stack := below } : St).add top.toJV
+        -- a member name without a value (`{a:}`): the `gen.Key` on top is popped in place of the map
+        -- and added as if it were the finished object (marked 'v')
+        let s1' := if topIsKey s1.stack then s1.addFeat 'v' else s1
+        let s2 ← ({ s1' with starts := rest, stack := below } : St).add top.toJV
         pure (s2, false, false)
     | _ => .error .objClose
   | .valDigit =>
@@ -309,7 +323,8 @@ def stepActP (s : St) (b : UInt8) : Except ErrKind (St × Bool × Bool) :=
   | .escU => .ok ({ s with mode := .u, rn := 0, ri := 0 }, true, false)
   | .openArray => do
     let s1 ← s.flushP T
-    pure (startP s1 s1.stack.length .arrMark, true, false)
+    let s2 := s1.undelivered
+    pure (startP s2 s2.stack.length .arrMark, true, false)
   | .closeArray =>
     match s.starts with
     | some idx :: rest => do
@@ -373,8 +388,7 @@ def stepActP (s : St) (b : UInt8) : Except ErrKind (St × Bool × Bool) :=
                   mode := if s.ri + 1 = 4 then .string else s.mode }, true, false)
   | .valSlash => do
     let s1 ← s.flushP T
-    -- a value that is complete at depth 0 is NOT delivered here (commentStartMap has no end marker)
-    let s2 := if s1.starts.isEmpty && !s1.stack.isEmpty then s1.addFeat 's' else s1
+    let s2 := s1.undelivered
     pure ({ s2 with mode := .commentStart }, false, false)
   | .commentStart => .ok ({ s with mode := .comment }, false, false)
   | .commentEnd => .ok ({ s with mode := .value }, true, false)
@@ -464,7 +478,8 @@ def stepActT (s : St) (b : UInt8) : Except ErrKind (St × Bool × Bool) :=
     match s.starts with
     | none :: rest => do
       let s1 ← s.flushT T
-      pure (({ s1 with starts := rest, exkey := topIsObj rest } : St).emit .objEnd, false, false)
+      let s1' := if s1.exkey then s1 else s1.addFeat 'v'     -- `{a:}`: a member name without a value
+      pure (({ s1' with starts := rest, exkey := topIsObj rest } : St).emit .objEnd, false, false)
     | _ => .error .objClose
   | .valDigit =>
     .ok ({ s with mode := .digit, num := { s.num.reset with i := (b - 48).toUInt64 } }, false, false)
@@ -611,17 +626,31 @@ structure Pos where
   noff : Int := -1
   deriving Repr, Inhabited
 
-def Pos.err (p : Pos) (k : ErrKind) : Err := { line := p.line, col := (p.off : Int) - p.noff, kind := k }
+def Pos.err (p : Pos) (k : ErrKind) (feat : List Char := []) (plus : Bool := false) (lsk : Bytes := []) : Err :=
+  { line := p.line, col := (p.off : Int) - p.noff, kind := k, feat := feat, plus := plus, lastStrKey := lsk }
 
 def Pos.next (p : Pos) (nl : Bool) : Pos :=
   if nl then { line := p.line + 1, off := p.off + 1, noff := p.off } else { p with off := p.off + 1 }
+
+/-- deviations that show in the table cell alone (so that a run that fails on the very byte still
+reports them) -/
+def cellFeat (s : St) (b : UInt8) : St :=
+  match T.act s.mode b with
+  | .valPlus => s.addFeat 'p'
+  | .openParen => s.addFeat 'f'
+  | .closeParen => s.addFeat 'f'
+  | .ccommentStart => if cfg.tokenizer then s.addFeat 'c' else s
+  | .ccommentEnd => if cfg.tokenizer then s.addFeat 'c' else s
+  | .cskipChar => if cfg.tokenizer then s.addFeat 'c' else s
+  | .cskipNewline => if cfg.tokenizer then s.addFeat 'c' else s
+  | _ => s
 
 /-- the bytes of one read buffer -/
 def runBytes (s : St) (p : Pos) : Bytes → Except Err (St × Pos)
   | [] => .ok (s, p)
   | b :: r =>
     match step T cfg s b r.isEmpty with
-    | .error k => .error (p.err k)
+    | .error k => .error (p.err k (cellFeat T cfg s b).feat s.plus s.lastStrKey)
     | .ok (s', nl) => runBytes s' (p.next nl) r
 
 /-- the fast paths end with the read buffer -/
@@ -641,37 +670,38 @@ structure Out where
   evs : List Ev
   feat : List Char
   plus : Bool
+  lastStrKey : Bytes := []
 
 /-- end of input (`last`) -/
 def finish (s : St) (p : Pos) : Except Err Out :=
-  if !s.starts.isEmpty then .error (p.err .notClosed)
+  if !s.starts.isEmpty then .error (p.err .notClosed s.feat s.plus s.lastStrKey)
   else
     match T.fin s.mode with
-    | .absent => .error (p.err .incomplete)
+    | .absent => .error (p.err .incomplete s.feat s.plus s.lastStrKey)
     | .n =>
       if cfg.tokenizer then
         match s.handleNumT with
-        | .error k => .error (p.err k)
-        | .ok s' => .ok { docs := [], evs := s'.evs.reverse, feat := s'.feat, plus := s'.plus }
+        | .error k => .error (p.err k s.feat s.plus s.lastStrKey)
+        | .ok s' => .ok { docs := [], evs := s'.evs.reverse, feat := s'.feat, plus := s'.plus, lastStrKey := s'.lastStrKey }
       else
         match s.addIgnore s.num.asNum.toJV with
-        | .error k => .error (p.err k)
+        | .error k => .error (p.err k s.feat s.plus s.lastStrKey)
         | .ok s' =>
           match s'.stack.getLast? with
-          | none => .error (p.err (.fault "index out of range [0]"))
-          | some it => .ok { docs := (it.toJV :: s'.docs).reverse, evs := [], feat := s'.feat, plus := s'.plus }
+          | none => .error (p.err (.fault "index out of range [0]") s.feat s.plus s.lastStrKey)
+          | some it => .ok { docs := (it.toJV :: s'.docs).reverse, evs := [], feat := s'.feat, plus := s'.plus, lastStrKey := s'.lastStrKey }
     | .t =>
       if cfg.tokenizer then
         let s' := s.addTokenT s.tmp.reverse
-        .ok { docs := [], evs := s'.evs.reverse, feat := s'.feat, plus := s'.plus }
+        .ok { docs := [], evs := s'.evs.reverse, feat := s'.feat, plus := s'.plus, lastStrKey := s'.lastStrKey }
       else
         match s.addTokenP s.tmp.reverse with
-        | .error k => .error (p.err k)
+        | .error k => .error (p.err k s.feat s.plus s.lastStrKey)
         | .ok s' =>
           match s'.stack.getLast? with
-          | none => .error (p.err (.fault "index out of range [0]"))
-          | some it => .ok { docs := (it.toJV :: s'.docs).reverse, evs := [], feat := s'.feat, plus := s'.plus }
-    | _ => .ok { docs := s.docs.reverse, evs := s.evs.reverse, feat := s.feat, plus := s.plus }
+          | none => .error (p.err (.fault "index out of range [0]") s.feat s.plus s.lastStrKey)
+          | some it => .ok { docs := (it.toJV :: s'.docs).reverse, evs := [], feat := s'.feat, plus := s'.plus, lastStrKey := s'.lastStrKey }
+    | _ => .ok { docs := s.docs.reverse, evs := s.evs.reverse, feat := s.feat, plus := s.plus, lastStrKey := s.lastStrKey }
 
 /-- The state a call starts from, given the state `prev` the previous call on the same instance left
 behind: `Parse`/`ParseReader` (and `Tokenizer.Parse`/`Load`) reset `stack`, `tmp`, `starts`, `result`,
